@@ -328,6 +328,9 @@ func (s *Sim) viewShapes(rows []sortRow, def ViewDef) []ViewQ {
 		ViewQ{"limit", map[string]any{"limit": lim, "reduce": false}},
 		ViewQ{"limit-descending", map[string]any{"limit": lim, "descending": true, "reduce": false}},
 		ViewQ{"limit-range", map[string]any{"limit": lim, "startkey": lo, "reduce": false}},
+		// every spelling of "not stale" is a query that must see the current documents
+		ViewQ{"stale-false-string", map[string]any{"stale": "false", "reduce": false}},
+		ViewQ{"stale-false-bool", map[string]any{"stale": false, "reduce": false}},
 	)
 	if def.Reduce != "" {
 		qs = append(qs,
